@@ -17,6 +17,20 @@
     parse of the decoded bytes.  A change of the compressed bytes is therefore detected unless the
     32-bit checksum still matches: that 2⁻³² residual is inherent to the format and stated here,
     not hidden.  (`readNextBlock_crc_mismatch`: a mismatch is always reported, never decoded.)
+  * "reports the damage" — precisely: reported as an error are a checksum mismatch, a payload that
+    does not decompress, a decoded length other than declared or implausibly large, leftover payload
+    behind the counted entries, and an entry that runs past its block.  *Not* reported, by design of
+    the torn-tail handling, are the two shapes an interrupted append leaves behind: fewer than 16
+    header bytes, and (fact `shortPayloadIsEOF`) a `CompressedSize` larger than what is left of the
+    file.  The latter is silent wherever it occurs: `oversized_csize_hides_rest` /
+    `load_after_oversized_csize` (Hv/Storage/TornLemmas.lean) prove that a damaged size field in the
+    MIDDLE of a file makes `LoadIndex` return the blocks before it, drop every intact block after
+    it, and report nothing.  What is returned is still only what was written (`sound`).
+  * scope — `Holds` is about `NewFileReader` + `LoadIndex`.  `ScanBlockHeaders` (`scanHeaders`) and the
+    writer's torn-tail walk (`walkEnd`) are structurally recursive on explicit fuel `len/16+1` and
+    allocate one 16-byte buffer; `ReadSwampName` is `openReader` (+ `LoadIndex` for V2).
+    `CalculateFragmentation`, compaction and `chroniclerV2.Load` (which skips an undecodable
+    treasure and may self-heal by compaction) are not covered by any C04 claim.
   * allocation — `loadAlloc ≤ 321·len + 3.3 MB` for every decoder that does not return more than
     it declares, when both bounds checks are present.
 -/
